@@ -19,4 +19,13 @@ def main():
 
 
 def replay(path):
+    import json
+    rec = json.load(open(path))
+    if "x" in rec.get("case", {}):
+        from . import mix
+        case = mix.run_case({"id": rec["case"]["id"], "x": rec["case"]["x"]})
+        res, fails = mix.validate([case])
+        for f in fails:
+            print("FAIL", f)
+        return 1 if any(cl[0].startswith("C10.") or cl[0].startswith("MIX.") for f in fails for cl in f["clauses"]) else 0
     return therm.replay_file("C10", path)
